@@ -402,6 +402,18 @@ def _pickle_stream_world(repo: Repo, pickles, log):
             p.fields["opcodes"] = PyIter(iter(ops), "iter")  # what the property returns: iter(self)
         elif opc is not None:
             p.fields["()opcodes"] = lambda _o=ops: PyIter(iter(_o), "iter")
+
+        def fallback(attr, _p=p):
+            # any other property of Pickled: its own body, interpreted on this abstract pickle
+            from ..minieval import Evaluator, Unsupported
+
+            for k in repo.mro_classes(pk):
+                for fn in k.methods.get(attr, []):
+                    if fn.kind == "property":
+                        return Evaluator({fn.params()[0]: _p}).run_body(fn.node.body)
+            raise Unsupported(f"attribute .{attr} of the abstract Pickled")
+
+        p.fields["__getattr__"] = fallback
         return p
 
     return stream, load_one
